@@ -60,6 +60,12 @@ def run(run, env, prop, gen_args=(), key_prefix="model-vs-impl", extra_ties=("Pa
             run.cov.setdefault("translator_ties", {})[n] = t["mode"]
             if not t["ok"]:
                 run.notes.append("translator tie %s did not hold (%s)" % (n, t["mode"]))
+                if not run.violations:
+                    # part of the model this property's theorems rest on is no longer proved equal to the source and the
+                    # worlds found no input on which implementation and model differ
+                    run.violation("tie-broken:" + n, "Tie_%s no longer checks against the functions translated from the current source (%s); "
+                                  "the generated worlds found no input on which the implementation differs from the model" % (n, t["mode"]),
+                                  dict(theorem="coqgen/Tie_%s.v" % n, mode=t["mode"], log=t["log"][-1500:]), no_input=True)
     if not env["props_ok"] or not env["coq_ok"]:
         run.violation("proof-broken", "Coq development or Properties_%s.v no longer checks" % prop, dict(log=env["props_log"][-1500:]), no_input=True)
     return stats
